@@ -489,9 +489,23 @@ func ucisched(args []string) {
 }
 
 // realScript: sessions for the real searches: small depths, stop after infinite, movetime.
+// lightCorpus: positions whose shallow searches (quiescence included) finish at once.
+func lightCorpus() []corpus.Entry {
+	var ret []corpus.Entry
+	for _, e := range corpus.All() {
+		f := e.Fen
+		if strings.Contains(f, "QQQ") || strings.Contains(f, "qqq") || strings.Contains(f, "NNNN") || strings.Contains(f, "B1B1") ||
+			strings.Contains(f, "PPPPPPPP/8/8/pppppppp") || strings.Contains(f, "n1n1") {
+			continue
+		}
+		ret = append(ret, e)
+	}
+	return ret
+}
+
 func realScript(r *rand.Rand) []stepT {
 	var steps []stepT
-	all := corpus.All()
+	all := lightCorpus()
 	g := gameT{start: "startpos"}
 	if r.Intn(3) != 0 {
 		g = gameT{start: "fen " + all[r.Intn(len(all))].Fen}
